@@ -235,13 +235,18 @@ func vReach(label string) {
 
 // vKnown marks the path as lying inside the region of a known finding.
 func vKnown(id string, cond bool) bool {
-	if cond {
+	// only findings that are still open suppress anything (VERIF_OPEN: their ids); the region
+	// of a repaired finding is ordinary territory
+	if cond && strings.Contains(","+os.Getenv("VERIF_OPEN")+",", ","+id+",") {
 		vMu.Lock()
 		vKnownSet[id] = true
 		vMu.Unlock()
 	}
 	return cond
 }
+
+// vWatch names a memory word for the failure descriptors of the engine; nothing natively.
+func vWatch(name string, p *int32) {}
 
 func vExpectPanic(f func()) (panicked bool) {
 	defer func() {
